@@ -16,6 +16,7 @@ import (
 	"strconv"
 	"strings"
 	"sync"
+	"sync/atomic"
 	"time"
 )
 
@@ -226,7 +227,7 @@ type Conn struct {
 	Opts   Options
 	bus    *Bus
 	id     int
-	closed bool
+	closed atomic.Bool
 	down   bool // link down (controlled by the harness)
 	subs   []*Subscription
 	buf    []*Msg // published while the link is down
@@ -295,10 +296,10 @@ func (nc *Conn) ID() int { return nc.id }
 func (nc *Conn) TLSRequired() bool { return false }
 
 // IsClosed reports whether Close was called.
-func (nc *Conn) IsClosed() bool { return nc == nil || nc.closed }
+func (nc *Conn) IsClosed() bool { return nc == nil || nc.closed.Load() }
 
 // IsConnected reports link state.
-func (nc *Conn) IsConnected() bool { return nc != nil && !nc.closed && !nc.down }
+func (nc *Conn) IsConnected() bool { return nc != nil && !nc.closed.Load() && !nc.down }
 
 func goID() int64 {
 	var buf [64]byte
@@ -375,7 +376,7 @@ func (nc *Conn) Subscribe(subj string, cb MsgHandler) (*Subscription, error) {
 	if nc == nil {
 		return nil, ErrInvalidConnection
 	}
-	if nc.closed {
+	if nc.closed.Load() {
 		return nil, ErrConnectionClosed
 	}
 	if subj == "" || strings.ContainsAny(subj, " \t\r\n") {
@@ -442,7 +443,7 @@ func (s *Subscription) Unsubscribe() error {
 		return ErrBadSubscription
 	}
 	nc := s.conn
-	if nc == nil || nc.closed {
+	if nc == nil || nc.closed.Load() {
 		return ErrConnectionClosed
 	}
 	b := nc.bus
@@ -468,9 +469,12 @@ func (s *Subscription) Unsubscribe() error {
 	return nil
 }
 
-// remove must be called with bus lock held.
+// remove must be called with bus lock held. (valid is written under both
+// locks, so it may be read under either.)
 func (s *Subscription) remove() {
+	s.mu.Lock()
 	s.valid = false
+	s.mu.Unlock()
 	b := s.conn.bus
 	for i, x := range b.subs {
 		if x == s {
@@ -492,7 +496,7 @@ func (s *Subscription) Drain() error {
 		return ErrBadSubscription
 	}
 	nc := s.conn
-	if nc == nil || nc.closed {
+	if nc == nil || nc.closed.Load() {
 		return ErrConnectionClosed
 	}
 	b := nc.bus
@@ -534,9 +538,6 @@ func (s *Subscription) IsValid() bool {
 	if s.draining && len(s.pending) > 0 {
 		return true
 	}
-	b := s.conn.bus
-	b.mu.Lock()
-	defer b.mu.Unlock()
 	return s.valid
 }
 
@@ -568,7 +569,7 @@ func (nc *Conn) publish(subj, reply string, data []byte) error {
 	if nc == nil {
 		return ErrInvalidConnection
 	}
-	if nc.closed {
+	if nc.closed.Load() {
 		return ErrConnectionClosed
 	}
 	if !validPubSubject(subj) {
@@ -669,7 +670,7 @@ func (nc *Conn) Request(subj string, data []byte, timeout time.Duration) (*Msg, 
 	if nc == nil {
 		return nil, ErrInvalidConnection
 	}
-	if nc.closed {
+	if nc.closed.Load() {
 		return nil, ErrConnectionClosed
 	}
 	if !validPubSubject(subj) {
@@ -736,11 +737,11 @@ func (nc *Conn) Close() {
 	}
 	b := nc.bus
 	b.mu.Lock()
-	if nc.closed {
+	if nc.closed.Load() {
 		b.mu.Unlock()
 		return
 	}
-	nc.closed = true
+	nc.closed.Store(true)
 	for _, s := range append([]*Subscription{}, nc.subs...) {
 		s.remove()
 		if s.wake != nil {
